@@ -94,58 +94,68 @@ Example C05_example_nontrivial :
 Proof. vm_compute. repeat split; reflexivity. Qed.
 
 (* ---------------------------------------------------------------------
-   Part A: the key scheme "<name>/<type>/ids|data" of the npz files.
+   Part A: the key scheme "<name>/<type>/ids|data|time_series" of the npz files.
    For every key configuration accepted by the static check (keys are
-   recognised and grouped by equality on a split part), and arrays of any
-   type V: *)
+   recognised and grouped by equality on a split part; the time_series flag is
+   stored and read back), arrays of any type V, `vtrue` the stored flag value
+   and `truthy` Python's bool() with bool(vtrue) = True.  An attribute is
+   (ids, data, time_series). *)
 
-(* one attribute, with or without prefix *)
+(* one attribute, with or without prefix, time series or not *)
 Theorem C05_attr_dict_roundtrip :
-  forall (V : Type) kc, key_cfg_ok kc = true ->
-  forall prefix (a : attr V), attr_from_dict kc (attr_to_dict prefix a) = Ok a.
-Proof. intros V kc OK. exact (attr_roundtrip V kc OK). Qed.
+  forall (V : Type) (vtrue : V) (truthy : V -> bool), truthy vtrue = true ->
+  forall kc, key_cfg_ok kc = true ->
+  forall prefix (a : attr V), attr_from_dict truthy kc (attr_to_dict vtrue kc prefix a) = Ok a.
+Proof. intros V vtrue truthy T kc OK. exact (attr_roundtrip V vtrue truthy T kc OK). Qed.
 
 (* the elements of a mesh: ANY set of distinct element types of the table
    (types whose names contain one another included), under any prefix *)
 Theorem C05_elements_dict_roundtrip :
-  forall (V : Type) kc, key_cfg_ok kc = true ->
+  forall (V : Type) (vtrue : V) (truthy : V -> bool), truthy vtrue = true ->
+  forall kc, key_cfg_ok kc = true ->
   forall prefix (e : eattr V), prefix_ok prefix = true -> wf_eattr kc e = true ->
-  exists e', elem_from_dict kc (elem_to_dict prefix e) = Ok e'
+  exists e', elem_from_dict truthy kc (elem_to_dict vtrue kc prefix e) = Ok e'
     /\ (forall t, In t (map fst e') <-> In t (map fst e))
     /\ (forall t a, In (t, a) e' -> In (t, a) e).
-Proof. intros V kc OK. exact (elem_roundtrip V kc OK). Qed.
+Proof. intros V vtrue truthy T kc OK. exact (elem_roundtrip V vtrue truthy T kc OK). Qed.
 
 (* nodal data / constraints: ANY distinct attribute names without '/' *)
 Theorem C05_attrs_dict_roundtrip :
-  forall (V : Type) kc, key_cfg_ok kc = true ->
+  forall (V : Type) (vtrue : V) (truthy : V -> bool), truthy vtrue = true ->
+  forall kc, key_cfg_ok kc = true ->
   forall (c : list (string * attr V)), wf_names (map fst c) = true ->
-  exists c', attrs_from_dict kc (attrs_to_dict c) = Ok c'
+  exists c', attrs_from_dict truthy kc (attrs_to_dict vtrue kc c) = Ok c'
     /\ (forall n, In n (map fst c') <-> In n (map fst c))
     /\ (forall n a, In (n, a) c' -> In (n, a) c).
-Proof. intros V kc OK. exact (attrs_roundtrip V kc OK). Qed.
+Proof. intros V vtrue truthy T kc OK. exact (attrs_roundtrip V vtrue truthy T kc OK). Qed.
 
 (* elemental data: any names, each with any set of element types *)
 Theorem C05_elemental_data_dict_roundtrip :
-  forall (V : Type) kc, key_cfg_ok kc = true ->
+  forall (V : Type) (vtrue : V) (truthy : V -> bool), truthy vtrue = true ->
+  forall kc, key_cfg_ok kc = true ->
   forall (c : list (string * eattr V)),
     wf_names (map fst c) = true -> forallb (fun ne => wf_eattr kc (snd ne)) c = true ->
-  exists c', eattrs_from_dict kc (eattrs_to_dict c) = Ok c'
+  exists c', eattrs_from_dict truthy kc (eattrs_to_dict vtrue kc c) = Ok c'
     /\ (forall n, In n (map fst c') <-> In n (map fst c))
     /\ (forall n e', In (n, e') c' -> exists e, In (n, e) c
           /\ (forall t, In t (map fst e') <-> In t (map fst e))
           /\ (forall t a, In (t, a) e' -> In (t, a) e)).
-Proof. intros V kc OK. exact (eattrs_roundtrip V kc OK). Qed.
+Proof. intros V vtrue truthy T kc OK. exact (eattrs_roundtrip V vtrue truthy T kc OK). Qed.
 
 Definition example_kcfg : key_cfg := {|
   ids_test := TLastEq "ids"; data_test := TLastEq "data";
+  ts_test := Some (TLastEq "time_series"); writes_ts := true;
   elem_group := MEqType; attrs_group := MEqFirst;
   element_types := ["tet"; "tet2"; "hex"; "hexprism"; "prism"] |}.
 
 Example C05_example_keys_nontrivial :
   key_cfg_ok example_kcfg = true
+  /\ ntruthy 1 = true
   /\ wf_eattr example_kcfg (tagged_eattr ["tet"; "tet2"; "hex"; "hexprism"]) = true
-  /\ wf_names ["fluids"; "tet_quality"; "ids"] = true
-  /\ prefix_ok (Some "tet_quality") = true.
+  /\ wf_names ["fluids"; "tet_quality"; "ids"; "time_series"] = true
+  /\ prefix_ok (Some "tet_quality") = true
+  /\ keys_of (attrs_to_dict 1 example_kcfg [("T", (0, 1, true)); ("U", (2, 3, false))])
+     = ["T/ids"; "T/data"; "T/time_series"; "U/ids"; "U/data"].
 Proof. vm_compute. repeat split; reflexivity. Qed.
 
 Print Assumptions C05_crash_safe.
